@@ -336,7 +336,7 @@ PROPS = {
         "thorough": [rapid("TestC03", 25000, shards=16, timeout=3000), fuzz("FuzzC03", 180)],
     },
     "C20": {
-        "rule": "cases: every string of length 1..5 over {a,Z,0,9,_,.,-,/,space,é,世,0xFF,0xC3,U+0663 ARABIC-INDIC DIGIT THREE} (exhaustive) plus "
+        "rule": "cases: every string of length 1..5 over {a,z,A,Z,0,9,_,.,-,/,space,é,世,0xFF,0xC3,U+0663 ARABIC-INDIC DIGIT THREE} (exhaustive) plus "
                 "rapid-generated keys up to 64 symbols, selector queries through the fake daemon and '| json' "
                 "extractions; non-trivial = the key contains at least one offending character or starts with a digit; "
                 "distinct = enumerated strings are distinct by construction, generated cases are de-duplicated by hash",
